@@ -172,7 +172,27 @@ def run(ctx):
         if global_config.high_compat_mode:
             raise AssertionError('mode on after a context following decorated calls')
 
-    for label, f in [('exception', by_exception), ('nested', nested), ('decorator', decorated), ('decorator-exception', decorated_raises),
+    # uniform spacing in the mode cannot be bypassed by supplying SPACING explicitly, nor by a spacing stored at an earlier write
+    def nonuniform_with_explicit_spacing():
+        import numpy as np
+        import impl
+        from dliswriter import DLISFile
+        for explicit in (True, False):
+            with high_compatibility_mode():
+                df = DLISFile()
+                lf = df.add_logical_file()
+                lf.add_origin('O', file_set_number=1, creation_time='2020/01/01 00:00:00')
+                ch = lf.add_channel('DEPTH')
+                lf.add_frame('F', channels=[ch], index_type='BOREHOLE-DEPTH', **({'spacing': 1.0} if explicit else {}))
+                if not explicit:
+                    o0 = impl.outcome(lambda: impl.write_real(df, data={'DEPTH': np.arange(6, dtype=np.float64)}))
+                    if o0[0] != 'ok':
+                        raise AssertionError('uniform index refused in the mode: %r' % (o0,))
+                o = impl.outcome(lambda: impl.write_real(df, data={'DEPTH': np.array([0.0, 1.0, 2.0, 10.0, 11.0, 30.0])}))
+                if o[0] == 'ok':
+                    raise AssertionError('non-uniform index written in the mode (%s)' % ('explicit spacing' if explicit else 'spacing stored by an earlier write'))
+
+    for label, f in [('nonuniform-spacing', nonuniform_with_explicit_spacing), ('exception', by_exception), ('nested', nested), ('decorator', decorated), ('decorator-exception', decorated_raises),
                      ('rejected-inside', rejected_inside), ('decorator-nested', outer_calls_inner), ('decorator-recursive', recursive),
                      ('decorator-inside-with', decorated_inside_with), ('with-after-decorated', with_inside_decorated)]:
         try:
